@@ -192,11 +192,11 @@ impl GcMap {
     }
 
     pub fn insert(&self, key: Primitive, value: Primitive) -> Result<Option<Primitive>> {
+        // resolve pointers first: the key or value may point into this very map (`m[m[1]] = 7`).
+        let key = key.move_out_of_heap_primitive()?;
+        let value = value.move_out_of_heap_primitive()?;
         let mut view = self.0.borrow_mut();
-        Ok(view.insert(
-            key.move_out_of_heap_primitive()?,
-            value.move_out_of_heap_primitive()?,
-        ))
+        Ok(view.insert(key, value))
     }
 
     pub fn get(&self, key: Primitive) -> Result<Primitive> {
